@@ -769,3 +769,143 @@ func genCancel(r *rand.Rand, id string, size int, total int) []string {
 	g.add("final11")
 	return g.lines
 }
+
+// genLimit: persisted logs with one or several heads (local and replicated entries), reloaded with every
+// limit from below zero to beyond the log length.
+func genLimit(r *rand.Rand, id string, size int, total int) []string {
+	g := &Gen{r: r}
+	peers := g.r.Perm(total)[:1+g.pick(3)]
+	kind := []string{"log", "kv"}[g.pick(2)]
+	g.add("scn %s kind=%s acl=%s peers=%s", id, kind, joinInts(peers), joinInts(peers))
+	p := peers[0]
+	n := 0
+	steps := 1 + g.pick(size)
+	for i := 0; i < steps; i++ {
+		w := peers[g.pick(len(peers))]
+		if kind == "log" {
+			g.add("add %d %s", w, hx(g.value()))
+		} else {
+			g.add("put %d %s %s", w, hx([]byte{byte('a' + g.pick(3))}), hx(g.value()))
+		}
+		n++
+		if g.pick(3) == 0 && len(peers) > 1 {
+			q := peers[g.pick(len(peers))]
+			if q != w {
+				g.add("sync %d %d", q, w)
+			}
+		}
+	}
+	// the observer pulls from everyone (possibly leaving several heads)
+	for _, q := range peers[1:] {
+		if g.pick(4) > 0 {
+			g.add("sync %d %d", p, q)
+		}
+	}
+	g.add("obs %d", p)
+	for _, a := range g.r.Perm(n + 6) {
+		g.add("restart %d %d", p, a-2)
+		g.add("obs %d", p)
+	}
+	g.add("restart %d -1", p)
+	g.add("obs %d", p)
+	return g.lines
+}
+
+var nameSegs = []string{"a", "db", "x y", "é✓", ".", "..", "", "A", "a.b", "..a", "victim", "@r1@", "@r1@", "orbitdb", "/orbitdb"}
+
+func (g *Gen) dbName() string {
+	n := 1 + g.pick(4)
+	var segs []string
+	for i := 0; i < n; i++ {
+		segs = append(segs, nameSegs[g.pick(len(nameSegs))])
+	}
+	name := strings.Join(segs, "/")
+	if g.pick(8) == 0 {
+		name = "/" + name
+	}
+	if g.pick(8) == 0 {
+		name += "/"
+	}
+	return name
+}
+
+// genAddress: names from a grammar (unicode, spaces, nested, empty, dotted and parent-directory
+// segments, names that look like addresses or re-enter another database's root), every type, explicit
+// and default write lists, two or three peers with different identities.
+func genAddress(r *rand.Rand, id string, size int, total int) []string {
+	g := &Gen{r: r}
+	g.add("scn %s kind=none acl=* peers=", id)
+	kinds := []string{"kv", "log", "doc"}
+	acls := []string{"default", "0", "1", "0,1", "1,0", "*", "2"}
+	// a victim database so that @r1@ exists
+	g.add("detaddr 0 %s log 0", hx([]byte("victim")))
+	g.add("createdb 0 %s log 0", hx([]byte("victim")))
+	steps := 4 + g.pick(size)
+	for i := 0; i < steps; i++ {
+		name := hx([]byte(g.dbName()))
+		kind := kinds[g.pick(3)]
+		acl := acls[g.pick(len(acls))]
+		p := g.pick(3)
+		q := g.pick(3)
+		g.add("pathjoin %s", name)
+		g.add("detaddr %d %s %s %s", p, name, kind, acl)
+		g.add("detaddr %d %s %s %s", q, name, kind, acl)
+		switch g.pick(4) {
+		case 0:
+			g.add("createdb %d %s %s %s", p, name, kind, acl)
+			g.add("createdb %d %s %s %s", p, name, kind, acl)            // again: refused
+			g.add("createdb %d %s %s %s overwrite", p, name, kind, acl)  // unless overwrite
+			g.add("openlast %d", q)
+			g.add("openlast %d localonly", q)
+			g.add("openlast %d localonly", p)
+		case 1:
+			g.add("createdb %d %s %s %s", p, name, kind, acl)
+			g.add("parselast")
+		}
+		g.add("closeextra")
+	}
+	return g.lines
+}
+
+// genSnapshot: every log shape (empty, chain, fork, multi-writer, replicated, replication in progress)
+// and payload sizes around the frame-length boundary; save, fresh instance, load from the snapshot.
+func genSnapshot(r *rand.Rand, id string, size int, total int) []string {
+	g := &Gen{r: r}
+	peers := g.r.Perm(total)[:1+g.pick(3)]
+	kind := []string{"log", "kv"}[g.pick(2)]
+	g.add("scn %s kind=%s acl=%s peers=%s", id, kind, joinInts(peers), joinInts(peers))
+	p := peers[0]
+	sizes := []int{0, 1, 255, 256, 1000, 30000, 36700, 36800, 36900, 49000, 65536, 300000}
+	steps := g.pick(size)
+	for i := 0; i < steps; i++ {
+		w := peers[g.pick(len(peers))]
+		c := g.pick(100)
+		switch {
+		case c < 50:
+			if kind == "log" {
+				g.add("add %d %s", w, hx(g.value()))
+			} else {
+				g.add("put %d %s %s", w, hx([]byte{byte('a' + g.pick(3))}), hx(g.value()))
+			}
+		case c < 62:
+			g.add("addbig %d %d", w, sizes[g.pick(len(sizes))])
+		case c < 85 && len(peers) > 1:
+			q := peers[g.pick(len(peers))]
+			if q != w {
+				g.add("sync %d %d", q, w)
+			}
+		default:
+			g.add("snapsave %d", p)
+		}
+	}
+	for _, q := range peers[1:] {
+		if g.pick(3) > 0 {
+			g.add("sync %d %d", p, q)
+		}
+	}
+	g.add("obs %d", p)
+	g.add("snapsave %d", p)
+	g.add("restartsnap %d", p)
+	g.add("obs %d", p)
+	return g.lines
+}
